@@ -684,7 +684,8 @@ struct Stream {
             "{\"type\":\"LineString\",\"coordinates\":[]}", "{\"type\":\"LineString\",\"coordinates\":[1,2]}", "{\"type\":\"Polygon\",\"coordinates\":[]}", "{\"type\":\"Polygon\",\"coordinates\":[[]]}", "{\"type\":\"Polygon\",\"coordinates\":[[[0,0],[1,0],[1,1]]]}",
             "{\"type\":\"Polygon\",\"coordinates\":[[],[[0,0],[1,0],[1,1],[0,0]]]}", "{\"type\":\"MultiPolygon\",\"coordinates\":[[]]}", "{\"type\":\"MultiPolygon\",\"coordinates\":[[[]]]}", "{\"type\":\"GeometryCollection\"}", "{\"type\":\"GeometryCollection\",\"geometries\":null}",
             "{\"type\":\"GeometryCollection\",\"geometries\":{}}", "{\"type\":\"GeometryCollection\",\"geometries\":[1]}", "{\"type\":\"GeometryCollection\",\"geometries\":[null]}", "{\"type\":\"Feature\"}", "{\"type\":\"Feature\",\"geometry\":null}", "{\"type\":\"Feature\",\"geometry\":null,\"properties\":null}",
-            "{\"type\":\"FeatureCollection\"}", "{\"type\":\"FeatureCollection\",\"features\":[null]}", "{\"type\":\"FeatureCollection\",\"features\":[{}]}", "{\"type\":\"FeatureCollection\",\"features\":{\"a\":{\"geometry\":{\"type\":\"Point\",\"coordinates\":[1,2]}}}}",
+            "{\"type\":\"FeatureCollection\"}", "{\"type\":\"FeatureCollection\",\"features\":[null]}", "{\"type\":\"FeatureCollection\",\"features\":[{}]}", "{\"type\":\"FeatureCollection\",\"features\":[{\"type\":\"Feature\",\"geometry\":null}]}",
+            "{\"type\":\"FeatureCollection\",\"features\":[{\"type\":\"Feature\",\"geometry\":{\"type\":\"Point\",\"coordinates\":[1,2]}},{\"type\":\"Feature\",\"geometry\":null,\"properties\":{}}]}", "{\"type\":\"FeatureCollection\",\"features\":[]}", "{\"type\":\"FeatureCollection\",\"features\":{\"a\":{\"geometry\":{\"type\":\"Point\",\"coordinates\":[1,2]}}}}",
             "{\"type\":\"Point\",\"coordinates\":[1e999,2]}", "{\"type\":\"Point\",\"coordinates\":[1,2]}x", "\xef\xbb\xbf{\"type\":\"Point\",\"coordinates\":[1,2]}", "{\"type\":\"Point\",\"coordinates\":[1,2],\"type\":\"LineString\"}", "{\"type\":\"Poi\\u006et\",\"coordinates\":[1,2]}", "{\"type\":\"Point\",\"coordinates\":[true,false]}"};
         for (const char* c : CORPUS) emit("geojson", "corpus", c);
         for (long d : {0L, 1L, 2L, 50L, 500L, (long) std::min<size_t>((size_t) G.maxDepth, (maxLen - 40) / 46)}) { std::string rd, s; family("geojson-nest", d, rd, s); emit("geojson", "witness_nest", s); }
@@ -695,9 +696,24 @@ struct Stream {
             if (kind < 6) { std::string s; size_t len = r.below(64); for (size_t k = 0; k < len; k++) s.push_back((char) r.range(1, 255)); emit("geojson", "random_bytes", s); continue; }
             auto g = G.tree(true, pickBig()); std::string s = G.geojson(g.get());
             if (s.empty()) { out.count("writer_failed"); continue; }
-            if (kind < 28) { emit("geojson", "valid", s); continue; }
+            // RFC 7946 wrappers: Feature / FeatureCollection around the geometry, with unlocated features ("geometry": null), missing or
+            // mistyped members, extra members, empty feature lists, several features per collection
+            const char* wrapLabel = nullptr;
+            if (r.chance(30)) {
+                auto feature = [&](const std::string& geom) {
+                    std::string f = "{\"type\":\"Feature\"";
+                    switch (r.below(10)) { case 0: f += ",\"geometry\":null"; break; case 1: break; case 2: f += ",\"geometry\":[]"; break; case 3: f += ",\"geometry\":{}"; break;
+                                            default: f += ",\"geometry\":" + geom; }
+                    switch (r.below(5)) { case 0: f += ",\"properties\":null"; break; case 1: f += ",\"properties\":{\"a\":1,\"b\":[1,{\"c\":null}],\"d\":\"x\"}"; break; case 2: f += ",\"id\":7"; break; default: break; }
+                    return f + "}"; };
+                if (r.chance(40)) { s = feature(s); wrapLabel = "feature"; }
+                else { int nf = (int) r.below(4); std::string fc = "{\"type\":\"FeatureCollection\",\"features\":[";
+                    for (int q = 0; q < nf; q++) { if (q) fc += ","; if (r.chance(70)) fc += feature(s); else { auto g2 = G.tree(true, false); std::string s2 = G.geojson(g2.get()); fc += feature(s2.empty() ? s : s2); } }
+                    fc += "]"; if (r.chance(20)) fc += ",\"bbox\":[0,0,1,1]"; fc += "}"; s = fc; wrapLabel = "feature_collection"; } }
+            if (kind < 28) { emit("geojson", wrapLabel ? wrapLabel : "valid", s); continue; }
             if (kind < 31) { everyPrefix("geojson", s); continue; }
             std::string label = mutateJson(G, s); if (r.chance(30)) label = mutateJson(G, s) + "+" + label;
+            if (wrapLabel) label = std::string(wrapLabel) + "+" + label;
             emit("geojson", label, s);
         }
     }
